@@ -112,6 +112,22 @@ def verify_member_contract(run, stats, dp, what_failed: str, stand_in: str) -> N
         stats.samples.append(ob_sample(posts[0]))
     for a in dp.ASSUMED:
         run.assume("assumed callee contract (generate_property): " + a)
+    if run.tier == "thorough":
+        # every decided obligation once more on cvc5 (chunks in parallel); a disagreement is a checker error
+        import concurrent.futures as cf
+        from pyvc import vc as _vc
+
+        decided = [o for o in rep.obligations if o.answer in ("sat", "unsat") and o.backend != "unreachable-path"]
+        chunks = [decided[i::16] for i in range(16) if decided[i::16]]
+        with cf.ThreadPoolExecutor(max_workers=16) as ex:
+            results = list(ex.map(lambda ch: _vc.cross_check(world, ch, "cvc5", 20000), chunks))
+        c = stats.cross.setdefault("cvc5", {"agree": 0, "disagree": []})
+        for agree, dis, dt in results:
+            stats.solver_s += dt
+            c["agree"] += agree
+            c["disagree"].extend(dis)
+            for d in dis:
+                run.crash(f"solver disagreement: {d}")
     failed = [o for o in posts if o.answer == "sat"]
     for o in [o for o in rep.obligations if o.expect == "unsat" and o.answer not in ("sat", "unsat")]:
         run.undecide(f"{o.name}: solver answered {o.answer}")
